@@ -122,6 +122,15 @@ def _tuple_len(rd: RD, expr: ast.AST, fn: FuncInfo, depth: int = 0, tree: Tree |
             if d.kind in {"store", "aug"}:
                 continue  # the growth of an accumulator (judged by `grown`)
             n = _tuple_len(rd, d.value, fn, depth + 1, tree, bound) if d.value is not None and d.kind == "assign" and d.index is None else None
+            if n is None and d.kind == "assign" and d.index is not None and d.value is not None and isinstance(d.node, ast.Assign) and len(d.node.targets) == 1:
+                # `a, *rest = seq`: the starred target holds what is left after the other targets took one element each
+                tgt = d.node.targets[0]
+                if isinstance(tgt, (ast.Tuple, ast.List)) and d.index < len(tgt.elts) and isinstance(tgt.elts[d.index], ast.Starred) and isinstance(tgt.elts[d.index].value, ast.Name) \
+                        and tgt.elts[d.index].value.id == expr.id and sum(isinstance(e, ast.Starred) for e in tgt.elts) == 1:
+                    whole = _tuple_len(rd, d.value, fn, depth + 1, tree, bound)
+                    taken = len(tgt.elts) - 1
+                    if whole is not None and (whole[0] >= taken):
+                        n = (whole[0] - taken, whole[1])
             if n is None and d.kind == "assign" and isinstance(d.value, ast.Call) and isinstance(d.value.func, ast.Name) and d.value.func.id in {"list", "tuple"} and not d.value.args:
                 n = (0, False)
             lens.add(n)
